@@ -16,12 +16,12 @@ def pstr(v):
 
 
 def run(prog, chk):
-    split_table(prog, chk)
-    url_parser_table(prog, chk)
-    host_char_table(prog, chk)
-    string_param_table(prog, chk)
-    endpoint_string_writers(prog, chk)
-    _run(prog, chk)
+    chk.defer(split_table, prog, chk)
+    chk.defer(url_parser_table, prog, chk)
+    chk.defer(host_char_table, prog, chk)
+    chk.defer(string_param_table, prog, chk)
+    chk.defer(endpoint_string_writers, prog, chk)
+    chk.defer(_run, prog, chk)
 
 
 def _run(prog, chk):
@@ -272,7 +272,8 @@ def url_parser_table(prog, chk):
     bp, lp, cp, up = [p["n"] for p in fn.params]
     K = prog.const
     UF = {n: K("UF_" + n) for n in ("SCHEMA", "HOST", "PORT", "PATH", "QUERY", "FRAGMENT", "USERINFO")}
-    helpers = {"parse_url_char", "http_parse_host", "http_parse_host_char"}
+    from ksirules.interp import unit_helpers
+    helpers = {"parse_url_char", "http_parse_host", "http_parse_host_char"} | unit_helpers(prog, fn)
     deep = getattr(chk, "tier", "quick") == "thorough"
     schemes = ("ksi", "KSI+tcp") + (("ksi+https", "http") if deep else ())
     # an IPv6 literal may end in a dotted IPv4 part (RFC 3986 IPv6address / ls32)
@@ -384,6 +385,8 @@ def host_char_table(prog, chk):
         req(st, unres | {ord(c) for c in ":%!$&'()*+,;="}, "userinfo")
         req(st, {ord(c) for c in "/?#[] \t"} | {0} | set(range(128, 256)), "host_dead")
     deep = getattr(chk, "tier", "quick") == "thorough"
+    from ksirules.interp import inline_model, unit_helpers
+    hs = unit_helpers(prog, fn)     # a character class moved into a file-local predicate is evaluated with the scanner
     sample = {ord(c) for c in "aAfFgGzZ09.-_:[]@/?#%~ !+=\\"} | {0, 127, 128, 255}
     n = 0
     for (st, c), to in sorted(want.items()):
@@ -391,7 +394,7 @@ def host_char_table(prog, chk):
             continue
         # the parameter is a plain char: octets above 127 arrive as negative values
         cv = c - 256 if c > 127 else c
-        I = Interp(fn, inputs={sp: S[st], cp: cv}, on_unknown="stop", prog=prog)
+        I = Interp(fn, inputs={sp: S[st], cp: cv}, call_model=inline_model(prog, hs) if hs else None, on_unknown="stop", prog=prog)
         paths = I.run()
         chk.paths += len(paths)
         n += 1
@@ -494,7 +497,8 @@ def split_table(prog, chk):
                 sub_in["U->field_data[%d].len" % f_] = 0
             sub_in["U->field_set"] = 0
             sub_in["U->port"] = 0
-            sub = BufInterp(fpu, {"URI": len(uri) + 1}, inputs=sub_in, call_model=inline_model(prog, {"parse_url_char", "http_parse_host", "http_parse_host_char"},
+            from ksirules.interp import unit_helpers
+            sub = BufInterp(fpu, {"URI": len(uri) + 1}, inputs=sub_in, call_model=inline_model(prog, {"parse_url_char", "http_parse_host", "http_parse_host_char"} | unit_helpers(prog, fpu),
                                                                                                fallback=succeed_model(prog, {"strtoul": strtoul_, "__assert_fail": lambda I2, p2, n2, a2: TOP})),
                             on_unknown="stop", prog=prog, loop_bound=len(uri) + 4)
             ps = sub.run()
